@@ -151,6 +151,17 @@ func (v *formatter_) formatArray(array any) {
 func (v *formatter_) formatAssociation(key any, value any) {
 	v.formatIntrinsic(key)
 	v.appendString(": ")
+	var reflected = ref.ValueOf(value)
+	if reflected.Kind() == ref.Pointer && reflected.MethodByName("GetKey").IsValid() {
+		// An association that is the value of an association is one level
+		// deeper, so that an association containing itself is truncated too.
+		v.nesting_++
+		defer func() { v.nesting_-- }()
+		if v.nesting_ > v.maximum_ {
+			v.appendString("...")
+			return
+		}
+	}
 	v.formatValue(value)
 }
 
